@@ -105,7 +105,11 @@ func renderFields(fs []upField) string {
 }
 
 // Source renders the contract. Initialisers give every field a value derived from the single Int argument.
-func (s upSpec) Source() string {
+func (s upSpec) Source() string { return s.source(false) }
+
+// source renders the contract; with initStore its initializer stores the instances (what the separate store transaction does
+// otherwise) into the storage of the account it is deployed to.
+func (s upSpec) source(initStore bool) string {
 	var sb strings.Builder
 	for _, p := range s.Pragmas {
 		sb.WriteString(p + "\n")
@@ -193,6 +197,24 @@ func (s upSpec) Source() string {
 	}
 	for _, e := range s.Extra {
 		sb.WriteString("    " + e + "\n")
+	}
+	if initStore && s.DKind == "struct" {
+		sb.WriteString(`    init() {
+        let st = self.account.storage
+        st.save(self.makeD(1), to: /storage/d1)
+        st.save(self.makeD(2), to: /storage/d2)
+        st.save([self.makeD(3), self.makeD(4)], to: /storage/ds)
+        st.save({"x": self.makeD(5)}, to: /storage/dd)
+        st.save(<- self.makeQ(6), to: /storage/q)
+        st.save(K.b, to: /storage/k)
+        st.save([self.makeD(8) as {I}], to: /storage/is)
+        st.save(self.makeD(9), to: /storage/d9)
+        st.save(N(77), to: /storage/n77)
+        st.save([N(78)], to: /storage/ns)
+    }
+}
+`)
+		return sb.String()
 	}
 	sb.WriteString("    init() {}\n}\n")
 	return sb.String()
@@ -365,10 +387,13 @@ transaction { prepare(s1: ` + fullAuth + `, s2: ` + fullAuth + `) {
 } }`
 
 // probe renders the probe script from the NEW declaration and the expected result computed from what was stored under v1.
-func (s upSpec) probe(v1 upSpec) (string, []string) {
+func (s upSpec) probe(v1 upSpec) (string, []string) { return s.probeAt(v1, 1) }
+
+// probeAt: acctA is the account holding the values that the store transaction puts into the first signer's storage
+func (s upSpec) probeAt(v1 upSpec, acctA int) (string, []string) {
 	var sb strings.Builder
 	var exp []string
-	sb.WriteString("import Upg from 0x2\naccess(all) fun main(): [AnyStruct] {\n    let out: [AnyStruct] = []\n    let a = getAuthAccount<auth(Storage) &Account>(0x1)\n    let b = getAuthAccount<auth(Storage) &Account>(0x2)\n")
+	fmt.Fprintf(&sb, "import Upg from 0x2\naccess(all) fun main(): [AnyStruct] {\n    let out: [AnyStruct] = []\n    let a = getAuthAccount<auth(Storage) &Account>(0x%d)\n    let b = getAuthAccount<auth(Storage) &Account>(0x2)\n", acctA)
 	expD := func(n int) {
 		for _, f := range s.DFields {
 			switch {
@@ -553,17 +578,26 @@ func runC27(tr c27Trial) (bool, []Violation) {
 		}
 	}
 	must(n.Exec(ExecReq{Kind: "tx", Source: DeployTx("World", WorldSrc), Signers: []uint64{1}}, true), "deploy World")
-	must(n.Exec(ExecReq{Kind: "tx", Source: DeployTx("Upg", v1.Source()), Signers: []uint64{2}, Salt: 1}, true), "deploy Upg v1")
-	must(n.Exec(ExecReq{Kind: "tx", Source: upStoreTx, Signers: []uint64{1, 2}, Salt: 2}, true), "store instances")
+	sameTx := tr.Via == "sameTx"
+	if !sameTx {
+		must(n.Exec(ExecReq{Kind: "tx", Source: DeployTx("Upg", v1.Source()), Signers: []uint64{2}, Salt: 1}, true), "deploy Upg v1")
+		must(n.Exec(ExecReq{Kind: "tx", Source: upStoreTx, Signers: []uint64{1, 2}, Salt: 2}, true), "store instances")
+	}
 	v2 := v1.clone()
 	for _, m := range upMutations() {
 		if m.Name == tr.Mutation {
 			m.Apply(&v2)
 		}
 	}
-	src2 := v2.Source()
+	src2 := v2.source(sameTx)
 	var upd string
-	if tr.Via == "tryUpdate" {
+	if sameTx {
+		// the contract is deployed (its initializer stores the instances) and updated by one and the same transaction
+		upd = fmt.Sprintf(`transaction { prepare(a: auth(Contracts) &Account) {
+    a.contracts.add(name: "Upg", code: "%s".decodeHex())
+    a.contracts.update(name: "Upg", code: "%s".decodeHex())
+} }`, hexs(v1.source(true)), hexs(src2))
+	} else if tr.Via == "tryUpdate" {
 		upd = fmt.Sprintf(`transaction { prepare(a: auth(Contracts) &Account) { let r = a.contracts.tryUpdate(name: "Upg", code: "%s".decodeHex()); if r.deployedContract == nil { panic("rejected") } } }`, hexs(src2))
 	} else {
 		upd = fmt.Sprintf(`transaction { prepare(a: auth(Contracts) &Account) { a.contracts.update(name: "Upg", code: "%s".decodeHex()) } }`, hexs(src2))
@@ -600,6 +634,9 @@ func runC27(tr c27Trial) (bool, []Violation) {
 		n.Restart()
 	}
 	probe, exp := v2.probe(v1)
+	if sameTx {
+		probe, exp = v2.probeAt(v1, 2)
+	}
 	if v2.DKind != "struct" {
 		return true, vs // a kind change that is accepted is caught by the probe failing to type check below in practice; D as resource cannot be probed with struct reads
 	}
@@ -681,6 +718,12 @@ func c27Worker(w *WorkerCtx) {
 			for _, e := range []string{"interp", "vm"} {
 				trials = append(trials, c27Trial{Mutation: f, Second: m.Name, Engine: e, Via: "update", Restart: true})
 			}
+		}
+	}
+	// the contract is deployed and updated by the same transaction (quick: the mutations that are refused most often)
+	for _, m := range muts {
+		for _, e := range []string{"interp", "vm"} {
+			trials = append(trials, c27Trial{Mutation: m.Name, Engine: e, Via: "sameTx", Restart: true})
 		}
 	}
 	// histories that are always run: a type removed with #removedType comes back in the next version
